@@ -244,6 +244,12 @@ impl<T: ?Sized> Clone for Arc<T> {
 impl<T: ?Sized> Drop for Arc<T> {
     #[track_caller]
     fn drop(&mut self) {
+        // The model is failing and there is nothing left to track the
+        // reference count in.
+        if rt::panicking_without_execution() {
+            return;
+        }
+
         if self.obj.ref_dec(location!()) {
             assert_eq!(
                 1,
